@@ -241,6 +241,10 @@ type mdOp struct {
 	Send bool // SendHeader instead of SetHeader (headers only)
 	Ctx  bool // through grpc.SetHeader/SendHeader/SetTrailer(ctx) instead of the stream's methods
 	MD   metadata.MD
+	// Live (part reuse, reuse.go): MD is an object the application owns and keeps; it is handed to the library as it
+	// is, not as a copy made for this one call. Want is what the application put into it.
+	Live bool
+	Want metadata.MD
 }
 
 func mdOf(m []KV) metadata.MD {
